@@ -36,10 +36,10 @@ def abstract_ipcone(record):
 class Compiled:
     """Both sides of one ro model description."""
 
-    def __init__(self, desc, style=None, primal=True, abstract_towers=False):
+    def __init__(self, desc, style=None, primal=True, abstract_towers=False, front='ro'):
         self.o = OracleRO()
         desc(self.o)
-        self.r = RealRO(style)
+        self.r = RealRO(style, front)
         desc(self.r)
         self.pcalls = []
         if abstract_towers:
@@ -271,6 +271,26 @@ def discharge_row(ses, cm, vs, P, blocks, row, label, kind, eps=0, extra=(), sam
     order = sorted(range(len(blocks)), key=lambda k: -len(blocks[k]['iface'] & cols))
     if row.get('robust') and row.get('uset') is not None and row['uset'].kind == 'exp':
         return discharge_expset_row(ses, cm, vs, [blocks[k] for k in order], row, label, sample, core)
+    if row.get('robust') and row.get('uset') is not None and row['uset'].kind == 'mixed' and not eps \
+            and not row['cons'].is_atom():
+        # ball-intersect-polytope sets: cone-pairing relaxation + reformulation-linearisation first (QF_LRA)
+        U = row['uset']
+        try:
+            G2, H2, T2, aux = U.relaxed_poly()
+            Q2 = U.soc_polys()
+        except HarnessError:
+            Q2 = None
+        if Q2:
+            c = row['cons']
+            (p,) = c.polys()
+            pv = p.subs({n: Poly.var('v%d' % j) for n, j in cm.iface.items()})
+            viol = [pv] if c.sense == 'le' else [pv, -pv]
+            for k in order:
+                blk = blocks[k]
+                if not blk['cones'] or (cols and not (blk['iface'] & cols)):
+                    continue
+                if rlt_block(ses, cm.cp, blk, G2, H2, T2, list(U.names) + aux, viol, label, kind, sample, 20000, Q2) == 'unsat':
+                    return 'unsat', None
     for k in order:
         blk = blocks[k]
         if cols and not (blk['iface'] & cols):
@@ -337,6 +357,10 @@ def block_polys(cp, blk):
     return G, H, cones
 
 
+def block_socs(cp, blk):
+    return [(Poly.var('v%d' % cp.qmat[k][0]), [Poly.var('v%d' % j) for j in cp.qmat[k][1:]]) for k in blk['cones']]
+
+
 def pairing_poly(t, d):
     a, b, c = t
     d0, d1, d2 = d
@@ -380,7 +404,7 @@ def rlt_refute(ses, G1, H1, vars1, G2, H2, vars2, extra_ge, viol_gt, label, time
     return ses.solve(cs + [z3.Or(neg)], timeout_ms=timeout_ms, label=label + '/rlt'), cs
 
 
-def rlt_block(ses, cp, blk, G2, H2, T2, vars2, viol, label, kind, sample=None, timeout_ms=None):
+def rlt_block(ses, cp, blk, G2, H2, T2, vars2, viol, label, kind, sample=None, timeout_ms=None, Q2=()):
     """One compiled block against one adversary system (G2 >= 0, H2 == 0, cone triples T2 over vars2), coupled by
     the pairing inequalities and the bilinear violation polynomials `viol` (any > 0).  Books a discharged
     obligation (with reachability twin) on `unsat`; returns the solver's answer."""
@@ -392,6 +416,16 @@ def rlt_block(ses, cp, blk, G2, H2, T2, vars2, viol, label, kind, sample=None, t
     vars1 = ['v%d' % j for j in sorted(blk['locals'] | blk['iface'])]
     pairs = [pairing_poly(a, b) for a, b in zip(T2, bc)] if len(T2) == len(bc) else \
             [pairing_poly(a, b) for a in T2 for b in bc]
+    # second-order cones: head >= |tail_i| on the adversary side, Cauchy-Schwarz pairing with every compiled cone of
+    # the same dimension (the cone is symmetric in the tail, both signs are facts)
+    for h2, t2 in Q2:
+        G2.append(h2)
+        for e in t2:
+            G2 += [h2 - e, h2 + e]
+        for h1, t1 in block_socs(cp, blk):
+            if len(t1) == len(t2):
+                dot = sum((a * b for a, b in zip(t1, t2)), Poly())
+                pairs += [h1 * h2 + dot, h1 * h2 - dot]
     (res, _), lincs = rlt_refute(ses, G1, H1, vars1, G2, list(H2), list(vars2), pairs, viol, label,
                                  timeout_ms=timeout_ms or 20000)
     if res == 'unsat':
